@@ -8,6 +8,7 @@ mod gen;
 mod cont;
 mod p01;
 mod p02;
+mod p03;
 mod refimpl;
 mod walk;
 
@@ -28,6 +29,7 @@ macro_rules! dispatch {
         match $id {
             "C01" => $f::<p01::C01>($($arg),*),
             "C02" => $f::<p02::C02>($($arg),*),
+            "C03" => $f::<p03::C03>($($arg),*),
             other => {
                 eprintln!("unknown property {other}");
                 std::process::exit(2);
